@@ -4,6 +4,8 @@ pairs are replaced on both sides by one shared fresh variable; the top-level que
 Every merge rests on an unsat verdict, and replacing a proved-equal subterm by a free variable only weakens what the
 solver may assume, so the final unsat implies the original identity."""
 import random
+import os
+import time
 from fractions import Fraction
 import terms as tm
 from terms import T
@@ -119,51 +121,93 @@ def _solve(chk, assumptions, lib, ref, timeout):
     return script, smt.run_solver(script, timeout, workdir=chk.scratch, tag=chk.pid), enc
 
 
+from concurrent.futures import ThreadPoolExecutor
+_POOL = ThreadPoolExecutor(max_workers=12)
+BATCH = 8
+
+
+def _encode(assumptions, lib, ref):
+    return smt.Encoder().script(list(assumptions), [tm.cmp('ne', lib, ref)])
+
+
+def _submit(chk, script, timeout):
+    """the solver process runs in a worker thread; terms are only built and encoded in the calling thread"""
+    return _POOL.submit(smt.run_solver, script, timeout, workdir=chk.scratch, tag=chk.pid)
+
+
 def sweep_identity(chk, name, lib, ref, assumptions, names, key=None, replay=None, family=None, min_size=6, max_lemmas=80, ufs=None, ranges=None,
                    lemma_timeout=10, mono_timeout=15, top_timeout=None):
     """Decides lib == ref under assumptions.  Ladder (first unsat wins, every rung is an exact-or-weaker encoding):
-       1. monolithic query; 2. node merging (proved-equal reference nodes are replaced by the library node: definitions kept);
-       3. cut-point abstraction (proved-equal nodes replaced by one shared free variable).
-    Registers ONE property obligation carrying the deciding verdict, plus the proved lemmas as lemma obligations."""
-    top_timeout = top_timeout or chk.qtimeout
-    script, res, enc = _solve(chk, assumptions, lib, ref, mono_timeout)
-    tried = [('monolithic', res['verdict'], round(res['time'], 2))]
-    final = (script, res, 'monolithic')
+       1. monolithic query (short cap); 2. cut-point lemmas; 3. additive splitting (groups of summands, each decided by this ladder again);
+       4. node merging (proved-equal reference nodes are replaced by the library node: definitions kept);
+       5. cut-point abstraction (proved-equal nodes replaced by one shared free variable); 6. monolithic query, full budget.
+    Registers ONE property obligation carrying the deciding verdict, plus the proved lemmas/groups as lemma obligations."""
+    t0_ = time.time()
+    script, res, how, tried, nlem = _ladder(chk, name, lib, ref, assumptions, names, family, min_size, max_lemmas, ufs, ranges, lemma_timeout, mono_timeout, top_timeout or chk.qtimeout, 0)
+    ob = framework.Ob(name, 'prop', script, 'unsat', dict(obligation=name, decided_by=how, ladder=tried, lemmas_proved=nlem, lhs=tm.show(lib, 3), rhs=tm.show(ref, 3)),
+                      replay, key, (), family=family)
+    ob.result = res
+    if os.environ.get('VERIF_TIMING'):
+        print('TIMING %s %.1fs %r' % (name, time.time() - t0_, tried), flush=True)
+    ob.search = dict(conds=list(assumptions), names=list(names), ranges=ranges, ufs=ufs)
+    chk.obs.append(ob)
+    chk.classify(ob)
+    return ob
+
+
+def _ladder(chk, name, lib, ref, assumptions, names, family, min_size, max_lemmas, ufs, ranges, lemma_timeout, mono_timeout, top_timeout, depth):
+    script = _encode(assumptions, lib, ref)
+    probe = _submit(chk, script, mono_timeout)
     lemmas = []
-    if res['verdict'] != 'unsat':
-        nodes, fps = fingerprints([lib, ref], names, chk.seed + 1, 3, ufs, ranges)
-        lib_nodes = set(t.id for t in tm.topo([lib]))
-        ref_nodes = set(t.id for t in tm.topo([ref]))
-        size = {}
-        for t in nodes:
-            size[t.id] = 1 + sum(size[c.id] for c in t.a)
-        ok = lambda t: t.sort == 'R' and t.a and size[t.id] >= min_size and all(v is not None for v in fps[t.id])
-        only_lib = [t for t in nodes if t.id in lib_nodes and t.id not in ref_nodes and ok(t)]
-        only_ref = [t for t in nodes if t.id in ref_nodes and t.id not in lib_nodes and ok(t)]
-        cands = []
-        buckets = {}
-        for a in only_lib:
-            buckets.setdefault(fpkey(fps[a.id]), []).append(a)
-        for b in only_ref:
-            for a in buckets.get(fpkey(fps[b.id]), []):
-                if all(close(x, y) for x, y in zip(fps[a.id], fps[b.id])):
-                    cands.append((max(size[a.id], size[b.id]), a, b))
-        cands.sort(key=lambda c: c[0])
-        S_merge, S_abs = {}, {}
+    S_merge, S_abs = {}, {}
+    try:
+        res = probe.result(timeout=1.5)
+        if res['verdict'] == 'unsat':
+            return script, res, 'monolithic', [('monolithic', 'unsat', round(res['time'], 2))], 0
+    except Exception:
+        pass
+    # the candidate search runs while the monolithic probe is with the solver
+    nodes, fps = fingerprints([lib, ref], names, chk.seed + 1, 3, ufs, ranges)
+    lib_nodes = set(t.id for t in tm.topo([lib]))
+    ref_nodes = set(t.id for t in tm.topo([ref]))
+    size = {}
+    for t in nodes:
+        size[t.id] = 1 + sum(size[c.id] for c in t.a)
+    ok = lambda t: t.sort == 'R' and t.a and size[t.id] >= min_size and all(v is not None for v in fps[t.id])
+    only_lib = [t for t in nodes if t.id in lib_nodes and t.id not in ref_nodes and ok(t)]
+    only_ref = [t for t in nodes if t.id in ref_nodes and t.id not in lib_nodes and ok(t)]
+    cands = []
+    buckets = {}
+    for a in only_lib:
+        buckets.setdefault(fpkey(fps[a.id]), []).append(a)
+    for b in only_ref:
+        for a in buckets.get(fpkey(fps[b.id]), []):
+            if all(close(x, y) for x, y in zip(fps[a.id], fps[b.id])):
+                cands.append((max(size[a.id], size[b.id]), a, b))
+    cands.sort(key=lambda c: c[0])
+    if True:
         used_b = set()
-        for sz, a, b in cands:
-            if len(lemmas) >= max_lemmas:
-                break
-            if b.id in used_b:
-                continue
-            a2, b2 = tm.subst([a, b], S_merge)
-            if a2 is b2:
-                continue
-            A2 = tm.subst(list(assumptions), S_merge) if S_merge else list(assumptions)
-            lscript, lres, _ = _solve(chk, A2, a2, b2, lemma_timeout)
-            ob = framework.Ob('%s#lemma%d' % (name, len(lemmas)), 'lemma', lscript, 'unsat', dict(obligation='cut-point lemma', lhs=tm.show(a, 3), rhs=tm.show(b, 3), size=sz), None, None, (), lemma_timeout, family=family)
-            ob.result = lres
-            if lres['verdict'] == 'unsat':
+        i = 0
+        while i < len(cands) and len(lemmas) < max_lemmas and not (probe.done() and probe.result()['verdict'] in ('sat', 'unsat')):
+            # a batch of lemma queries is with the solver at the same time; each is asked under the merges proved before the batch
+            batch = []
+            while i < len(cands) and len(batch) < BATCH:
+                sz, a, b = cands[i]
+                i += 1
+                if b.id in used_b:
+                    continue
+                a2, b2 = tm.subst([a, b], S_merge)
+                if a2 is b2:
+                    continue
+                A2 = tm.subst(list(assumptions), S_merge) if S_merge else list(assumptions)
+                lscript = _encode(A2, a2, b2)
+                batch.append((sz, a, b, lscript, _submit(chk, lscript, lemma_timeout)))
+            for sz, a, b, lscript, fut in batch:
+                lres = fut.result()
+                if lres['verdict'] != 'unsat' or b.id in used_b:
+                    continue
+                ob = framework.Ob('%s#lemma%d' % (name, len(lemmas)), 'lemma', lscript, 'unsat', dict(obligation='cut-point lemma', lhs=tm.show(a, 3), rhs=tm.show(b, 3), size=sz), None, None, (), lemma_timeout, family=family)
+                ob.result = lres
                 ob.status = 'discharged'
                 chk.obs.append(ob)
                 lemmas.append((a, b))
@@ -173,7 +217,71 @@ def sweep_identity(chk, name, lib, ref, assumptions, names, key=None, replay=Non
                     S_abs[a] = v
                 S_abs[b] = S_abs[a]
                 used_b.add(b.id)
-        if lemmas:
+    # the lemma phase ran while the monolithic probe was with the solver; with lemmas, the node-merged query is probed at once as well
+    nm = None
+    if lemmas and not probe.done():
+        lib2, ref2 = tm.subst([lib, ref], S_merge)
+        nm_script = _encode(tm.subst(list(assumptions), S_merge), lib2, ref2)
+        nm = _submit(chk, nm_script, mono_timeout)
+        from concurrent.futures import wait, FIRST_COMPLETED
+        pending = {probe, nm}
+        while pending:
+            done, pending = wait(pending, return_when=FIRST_COMPLETED)
+            if any(f.result()['verdict'] in ('sat', 'unsat') for f in done):
+                break
+    pending_probe = dict(verdict='timeout', time=0.0, output='', solver='z3', hash='', note='monolithic probe still running')
+    res = probe.result() if probe.done() else pending_probe
+    tried = [('monolithic', res['verdict'] if probe.done() else 'running', round(res['time'], 2))]
+    final = (script, res, 'monolithic')
+    if nm is not None and nm.done() and final[1]['verdict'] not in ('sat', 'unsat'):
+        r2 = nm.result()
+        tried.append(('node-merging(probe)', r2['verdict'], round(r2['time'], 2)))
+        if r2['verdict'] in ('sat', 'unsat'):
+            final = (nm_script, r2, 'node-merging')
+    if final[1]['verdict'] != 'unsat':
+        if final[1]['verdict'] not in ('sat', 'unsat'):
+            # additive splitting: summands common to both sides are cancelled (a + c == b + c  <=>  a == b), the remaining summands are
+            # grouped by numeric fingerprints into sub-sums that should be equal, and every group is proved by its own query
+            # (sum of proved-equal groups == the identity).  A group that is not proved leaves the ladder undecided.
+            lib_s, ref_s = (tm.subst([lib, ref], S_merge) if lemmas else (lib, ref))
+            A_s = tm.subst(list(assumptions), S_merge) if lemmas else list(assumptions)
+            groups = additive_groups(lib_s, ref_s, names, chk.seed + 2, ufs, ranges)
+            if groups is not None and len(groups) > 1:
+                t_all, ok, last, nok = 0.0, True, None, 0
+                for gi, (gl, gr) in enumerate(groups):
+                    if len(groups) == 1 or depth >= 2:
+                        gscript, gres, _ = _solve(chk, A_s, gl, gr, top_timeout if len(groups) > 1 else mono_timeout)
+                        ghow, gtried = 'monolithic', []
+                    else:
+                        gscript, gres, ghow, gtried, _n = _ladder(chk, '%s#group%d' % (name, gi), gl, gr, A_s, names, family, min_size, max_lemmas, ufs, ranges,
+                                                                  lemma_timeout, mono_timeout, max(4 * mono_timeout, top_timeout // 4), depth + 1)
+                    t_all += gres['time']
+                    last = (gscript, gres)
+                    if gres['verdict'] != 'unsat':
+                        ok = False
+                        if os.environ.get('VERIF_DUMP_GROUPS'):
+                            with open(os.environ['VERIF_DUMP_GROUPS'], 'a') as fh:
+                                fh.write('== %s group %d\nLHS %s\nRHS %s\n' % (name, gi, tm.show(gl, 9), tm.show(gr, 9)))
+                        tried.append(('group %d/%d undecided: %s == %s' % (gi + 1, len(groups), tm.show(gl, 2)[:80], tm.show(gr, 2)[:80]), gres['verdict'], gtried))
+                        continue
+                    nok += 1
+                    gob = framework.Ob('%s#group%d' % (name, gi), 'lemma', gscript, 'unsat', dict(obligation='additive group', decided_by=ghow, lhs=tm.show(gl, 3), rhs=tm.show(gr, 3)), None, None, (), top_timeout, family=family)
+                    gob.result = gres
+                    gob.status = 'discharged'
+                    chk.obs.append(gob)
+                tried.append(('additive-splitting(%d groups, %d proved)' % (len(groups), nok), 'unsat' if ok else 'undecided', round(t_all, 2)))
+                if ok:
+                    res_ = dict(last[1])
+                    res_['time'] = t_all
+                    final = (last[0], res_, 'additive-splitting')
+                elif len(groups) > 1 and nok > 0:
+                    # some groups are proved: the rungs below would redo the whole identity; they are tried with the short cap only
+                    top_timeout = min(top_timeout, 4 * mono_timeout)
+        if final[1] is pending_probe:
+            res = probe.result()
+            tried[0] = ('monolithic', res['verdict'], round(res['time'], 2))
+            final = (script, res, 'monolithic')
+        if lemmas and final[1]['verdict'] not in ('sat', 'unsat'):
             lib2, ref2 = tm.subst([lib, ref], S_merge)
             A2 = tm.subst(list(assumptions), S_merge)
             script2, res2, enc2 = _solve(chk, A2, lib2, ref2, top_timeout)
@@ -187,15 +295,123 @@ def sweep_identity(chk, name, lib, ref, assumptions, names, key=None, replay=Non
                 tried.append(('cut-point-abstraction', res3['verdict'], round(res3['time'], 2)))
                 if res3['verdict'] == 'unsat':
                     final = (script3, res3, 'cut-point-abstraction')
-                elif final[1]['verdict'] not in ('sat', 'unsat'):
-                    final = (script3, res3, 'cut-point-abstraction')
+                # (a sat answer over the abstraction proves nothing about the identity: the cut variables are free)
+    if final[1]['verdict'] not in ('sat', 'unsat') and top_timeout > mono_timeout:
+        # nothing decided: the monolithic query once more with the full budget (it was only probed with the short cap)
+        script, res, enc = _solve(chk, assumptions, lib, ref, top_timeout)
+        tried.append(('monolithic-full-budget', res['verdict'], round(res['time'], 2)))
+        if res['verdict'] in ('sat', 'unsat'):
+            final = (script, res, 'monolithic')
     script, res, how = final
-    ob = framework.Ob(name, 'prop', script, 'unsat', dict(obligation=name, decided_by=how, ladder=tried, lemmas_proved=len(lemmas), lhs=tm.show(lib, 3), rhs=tm.show(ref, 3)),
-                      replay, key, (), family=family)
-    ob.result = res
-    chk.obs.append(ob)
-    chk.classify(ob)
-    return ob
+    return script, res, how, tried, len(lemmas)
+
+
+def flatten_sum(t, sign=1, out=None):
+    """signed top-level summands of t: through add/sub/neg and (sum)/c"""
+    out = [] if out is None else out
+    if t.op == 'add':
+        flatten_sum(t.a[0], sign, out)
+        flatten_sum(t.a[1], sign, out)
+    elif t.op == 'sub':
+        flatten_sum(t.a[0], sign, out)
+        flatten_sum(t.a[1], -sign, out)
+    elif t.op == 'neg':
+        flatten_sum(t.a[0], -sign, out)
+    elif t.op == 'div' and t.a[0].op in ('add', 'sub', 'neg'):
+        for sg, x in flatten_sum(t.a[0], sign, []):
+            out.append((sg, x / t.a[1]))
+    else:
+        out.append((sign, t))
+    return out
+
+
+def _sum(items):
+    acc = None
+    for sg, t in items:
+        acc = (t if sg > 0 else -t) if acc is None else (acc + t if sg > 0 else acc - t)
+    return acc if acc is not None else tm.ZERO
+
+
+def _zero_subset(vals, scale):
+    """smallest index set containing 0 whose value vectors (rows of vals, numpy n x k) sum to ~0; None if there is none.
+    Meet in the middle: all subset sums of both halves, matched on the first coordinate, checked on the others."""
+    import numpy as np
+    n = len(vals)
+    if n < 2 or n > 44:
+        return None
+    tol = 1e-11 * scale
+    rest = list(range(1, n))
+    A, B = rest[:len(rest) // 2], rest[len(rest) // 2:]
+
+    def sums(idx):
+        out = np.zeros((1, vals.shape[1]))
+        for i in idx:
+            out = np.concatenate([out, out + vals[i]])
+        return out              # row m = sum of idx[j] for bits j of m
+    sa = sums(A) + vals[0]
+    sb = sums(B)
+    order = np.argsort(sa[:, 0])
+    key = sa[order, 0]
+    lo = np.searchsorted(key, -sb[:, 0] - tol, 'left')
+    hi = np.searchsorted(key, -sb[:, 0] + tol, 'right')
+    best = None
+    for mb in np.nonzero(hi > lo)[0]:
+        for pos in range(lo[mb], hi[mb]):
+            ma = order[pos]
+            if np.all(np.abs(sa[ma] + sb[mb]) <= tol):
+                cnt = bin(int(ma)).count('1') + bin(int(mb)).count('1')
+                if best is None or cnt < best[0]:
+                    best = (cnt, int(ma), int(mb))
+    if best is None:
+        return None
+    _, ma, mb = best
+    return [0] + [A[j] for j in range(len(A)) if ma >> j & 1] + [B[j] for j in range(len(B)) if mb >> j & 1]
+
+
+def additive_groups(lib, ref, names, seed, ufs=None, ranges=None):
+    """[(lib sub-sum, ref sub-sum)] covering lib - ref: common summands are cancelled, the rest is partitioned into minimal
+    sub-collections whose signed values cancel at the fingerprint points (candidates only: every group is then PROVED by a
+    query of its own).  None if there is nothing to split."""
+    import numpy as np
+    L, R = flatten_sum(lib), flatten_sum(ref)
+    if len(L) + len(R) <= 2:
+        return None
+    Rl = list(R)
+    L2 = []
+    for sg, t in L:
+        hit = [k for k, (sg2, t2) in enumerate(Rl) if t2 is t and sg2 == sg]
+        if hit:
+            Rl.pop(hit[0])
+        else:
+            L2.append((sg, t))
+    L, R = L2, Rl
+    if not L and not R:
+        return [(tm.ZERO, tm.ZERO)]
+    nodes, fps = fingerprints([t for _, t in L + R], names, seed, 3, ufs, ranges)
+    items = [(sg, t, 0) for sg, t in L] + [(-sg, t, 1) for sg, t in R]      # lib - ref
+    exact = [[None if v is None else (v if it[0] > 0 else -v) for v in fps[it[1].id]] for it in items]
+    whole = [(_sum(L), _sum(R))]
+    if any(v is None for e in exact for v in e):
+        return whole
+    groups = []
+    left = list(range(len(items)))
+    while left:
+        vals = np.array([[float(v) for v in exact[i]] for i in left])
+        scale = float(np.abs(vals).sum()) + 1e-300
+        sub = _zero_subset(vals, scale) if len(left) > 2 else list(range(len(left)))
+        if sub is None:
+            sub = list(range(len(left)))
+        idx = [left[j] for j in sub]
+        # confirm the numeric cancellation at 50 digits
+        for k in range(len(exact[0])):
+            tot = sum(exact[i][k] for i in idx)
+            mag = sum(abs(exact[i][k]) for i in idx)
+            if abs(tot) > rp.mp.mpf('1e-25') * (mag + 1):
+                idx = list(left)
+                break
+        groups.append((_sum([(items[i][0], items[i][1]) for i in idx if items[i][2] == 0]), _sum([(-items[i][0], items[i][1]) for i in idx if items[i][2] == 1])))
+        left = [i for i in left if i not in idx]
+    return groups
 
 
 def find_merges(chk, name, lib_roots, ref, assumptions, names, ufs=None, ranges=None, min_size=4, max_lemmas=120, lemma_timeout=10, family=None):
@@ -224,22 +440,28 @@ def find_merges(chk, name, lib_roots, ref, assumptions, names, ufs=None, ranges=
     cands.sort(key=lambda c: c[0])
     S = {}
     n = 0
-    for sz, a, b in cands:
-        if n >= max_lemmas:
-            break
-        a2, b2 = tm.subst([a, b], S) if S else (a, b)
-        if a2 is b2:
-            S[b] = a
-            continue
-        A2 = tm.subst(list(assumptions), S) if S else list(assumptions)
-        lscript, lres, _ = _solve(chk, A2, a2, b2, lemma_timeout)
-        n += 1
-        if lres['verdict'] == 'unsat':
-            ob = framework.Ob('%s#lemma%d' % (name, n), 'lemma', lscript, 'unsat', dict(obligation='cut-point lemma', lhs=tm.show(a, 3), rhs=tm.show(b, 3), size=sz), None, None, (), lemma_timeout, family=family)
-            ob.result = lres
-            ob.status = 'discharged'
-            chk.obs.append(ob)
-            S[b] = a
+    i = 0
+    while i < len(cands) and n < max_lemmas:
+        batch = []
+        while i < len(cands) and len(batch) < BATCH:
+            sz, a, b = cands[i]
+            i += 1
+            a2, b2 = tm.subst([a, b], S) if S else (a, b)
+            if a2 is b2:
+                S[b] = a
+                continue
+            A2 = tm.subst(list(assumptions), S) if S else list(assumptions)
+            lscript = _encode(A2, a2, b2)
+            batch.append((sz, a, b, lscript, _submit(chk, lscript, lemma_timeout)))
+        for sz, a, b, lscript, fut in batch:
+            lres = fut.result()
+            n += 1
+            if lres['verdict'] == 'unsat':
+                ob = framework.Ob('%s#lemma%d' % (name, n), 'lemma', lscript, 'unsat', dict(obligation='cut-point lemma', lhs=tm.show(a, 3), rhs=tm.show(b, 3), size=sz), None, None, (), lemma_timeout, family=family)
+                ob.result = lres
+                ob.status = 'discharged'
+                chk.obs.append(ob)
+                S[b] = a
     return S
 
 
@@ -292,16 +514,32 @@ def ask(chk, c, lits, assumptions, timeout):
 
 def pathwise_identity(chk, name, paths, ref, assumptions, names, key=None, replay=None, family=None, ufs=None, ranges=None, **kw):
     """lib (given as explored paths) == ref under assumptions, decided path by path"""
+    import itertools
     roots = [p['ret'] for p in paths]
-    if len(paths) == 1 and not any(t.op == 'ite' for t in tm.topo([ref])):
+    if len(paths) == 1 and not any(t.op == 'ite' for t in tm.topo([ref] + roots)):
         return [sweep_identity(chk, name, roots[0], ref, assumptions, names, key=key, replay=replay, family=family, ufs=ufs, ranges=ranges, **kw)]
+    t0_ = time.time()
     S = find_merges(chk, name, roots, ref, assumptions, names, ufs, ranges, family=family)
+    if os.environ.get('VERIF_TIMING'):
+        print('TIMING find_merges %s %.1fs merges=%d' % (name, time.time() - t0_, len(S)), flush=True)
     ref_m = tm.subst([ref], S)[0] if S else ref
     obs = []
     for k, p in enumerate(paths):
         lits = dict((c, b) for c, b in p['pc'])
-        pcs = [(c if b else tm.lnot(c)) for c, b in p['pc']]
-        A = list(assumptions) + pcs
-        ref_p = resolve_ites(ref_m, lits, chk, assumptions)
-        obs.append(sweep_identity(chk, '%s[path %d/%d]' % (name, k + 1, len(paths)), p['ret'], ref_p, A, names, key=key, replay=replay, family=family, ufs=ufs, ranges=ranges, **kw))
+        # branch-free selections inside the library value (select instructions) are split like branches: one case per truth
+        # assignment of their conditions (every assignment is a case, so the cases cover the whole path)
+        conds = []
+        for n in tm.topo([p['ret']]):
+            if n.op == 'ite' and truth(n.a[0], lits) is None and n.a[0] not in conds:
+                conds.append(n.a[0])
+        cases = [()] if not conds or len(conds) > 3 else list(itertools.product((True, False), repeat=len(conds)))
+        for j, asg in enumerate(cases):
+            lits2 = dict(lits)
+            lits2.update(zip(conds, asg))
+            pcs = [(c if b else tm.lnot(c)) for c, b in lits2.items()]
+            A = list(assumptions) + pcs
+            lib_p = resolve_ites(p['ret'], lits2) if asg else p['ret']
+            ref_p = resolve_ites(ref_m, lits2, chk, assumptions)
+            tag = '%s[path %d/%d]' % (name, k + 1, len(paths)) + ('[case %d/%d]' % (j + 1, len(cases)) if asg else '')
+            obs.append(sweep_identity(chk, tag, lib_p, ref_p, A, names, key=key, replay=replay, family=family, ufs=ufs, ranges=ranges, **kw))
     return obs
